@@ -19,10 +19,12 @@
 // All ordinates are integers with |c| <= 1024. A, B and C of one case live on the same small
 // grid, moved by one common offset and one common scale factor. The last line is `#GEN\t{json}`.
 //
-// General-position stream: every 16th case (small inputs only) is mapped by a random similarity
-// (rotation, scale 0.01..1000, translation) evaluated in float64; its class is "f_<class>" and
-// its geometries are printed with lib.Dump (16 hex digits per ordinate). The driver admits such
-// a case only if its exact clearance is at least 1e-6 x magnitude.
+// Magnitude streams (printed with lib.Dump, 16 hex digits per ordinate): every 16th case (small
+// inputs only) is mapped by a random similarity (rotation, scale 1e-18..1e+12, translation)
+// evaluated in float64, class "f_<class>"; the driver admits such a case only if its exact
+// clearance is at least 1e-6 x magnitude. Another 16th of the cases is the lattice case scaled
+// by an exact power of two (2^-60..2^-10, 2^1..2^40), class "p_<class>": exact oracle, no
+// clearance question.
 //
 // Class gc_overlap builds collections whose areal members overlap (a hole of one member covered
 // by another member): Intersects/Distance are right there, the overlay-based Disjoint and
@@ -1381,6 +1383,31 @@ func (g *gen) clsEmpties() (*sh, *sh) {
 // coll: both operands are GeometryCollections.
 func (g *gen) clsColl() (*sh, *sh) { return g.coll(0), g.coll(0) }
 
+// near_line: A is lineal (a random walk with diagonal segments), B is puntal with a point in the
+// bounding box of one segment of A: on the segment when it has such a lattice point, else (and
+// otherwise half of the time) beside it. Most cases of this class go through the magnitude
+// streams: at small magnitudes the cross products of such near misses are tiny, which is where an
+// absolute tolerance in a kernel predicate would show.
+func (g *gen) clsNearLine() (*sh, *sh) {
+	r := g.r
+	ka, _ := g.pickKind(2)
+	kb, _ := g.pickKind(1)
+	a := g.lineIn(0, 0, g.s, g.s, 5)
+	sg := a.segs()
+	e := sg[r.Intn(len(sg))]
+	x0, x1 := min(e[0].x, e[1].x), max(e[0].x, e[1].x)
+	y0, y1 := min(e[0].y, e[1].y), max(e[0].y, e[1].y)
+	p := P{r.Range(x0, x1), r.Range(y0, y1)}
+	if r.Bool() { // try a lattice point of the segment itself
+		dx, dy := e[1].x-e[0].x, e[1].y-e[0].y
+		if d := gcd(iabs(dx), iabs(dy)); d > 1 {
+			t := r.Range(1, d-1)
+			p = P{e[0].x + dx/d*t, e[0].y + dy/d*t}
+		}
+	}
+	return g.wrapPair(a, ka, pointSh(p), kb)
+}
+
 // gc_overlap: A is a collection whose areal members OVERLAP: a square with a hole plus a second
 // polygon that covers the hole (the same shell without the hole, a larger rectangle, or a
 // rectangle that covers only part of the hole); B lies inside the hole box. The point sets
@@ -1444,6 +1471,7 @@ var classes = []class{
 	{"empties", 7, false, (*gen).clsEmpties},
 	{"coll", 8, false, (*gen).clsColl},
 	{"gc_overlap", 4, false, (*gen).clsGCOverlap},
+	{"near_line", 4, false, (*gen).clsNearLine},
 }
 
 // symmetry applies one random symmetry of the common bounding box (flips, transposition) to all
@@ -1571,32 +1599,57 @@ func main() {
 			return geom.DimXY
 		}
 		na, nb, nc := toNode(a, ct(), r), toNode(b, ct(), r), toNode(c, ct(), r)
-		// general-position stream (every 16th case, small inputs only): the lattice case is mapped by
-		// a random similarity evaluated in float64, so the ordinates are arbitrary doubles; exact
-		// incidences become sub-tolerance near-incidences, which the driver's exact clearance test
-		// excludes, as the quantifier of the property says. Such cases are dumped with hex ordinates.
+		// Two magnitude streams, both dumped with hex ordinates (lib.Dump):
+		//
+		// f_<class> (i%16 == 15, small inputs only): the lattice case is mapped by a random
+		// similarity evaluated in float64 (rotation, scale 1e-18..1e+12 log-uniform, translation of
+		// the same order), so the ordinates are arbitrary doubles; exact incidences become
+		// sub-tolerance near-incidences, which the driver's exact clearance test excludes, as the
+		// quantifier of the property says.
+		//
+		// p_<class> (i%16 in {3, 7}): the lattice case is scaled by an exact power of two, 2^-k with k in
+		// 10..60 (three times out of four) or 2^+k with k in 1..40. Every float operation of the
+		// implementation commutes with that scaling, so the case is the lattice case at another
+		// magnitude (1e-18 .. 1e+15): the exact oracle applies unchanged, no clearance question.
 		dump, cname := zDump, cl.name
-		if i%16 == 15 && len(a.segs())+len(b.segs())+len(c.segs()) <= 24 {
+		var tr func(n *lib.Node, f func(x, y float64) (float64, float64))
+		tr = func(n *lib.Node, f func(x, y float64) (float64, float64)) {
+			for k := range n.C {
+				n.C[k][0], n.C[k][1] = f(n.C[k][0], n.C[k][1])
+			}
+			for _, kid := range n.Kids {
+				tr(kid, f)
+			}
+		}
+		sel := i % 16
+		if cl.name == "near_line" { // half of this class through p_, a quarter through f_
+			sel = []int{7, 15, 7, 0}[i%4]
+		}
+		switch {
+		case sel == 15 && len(a.segs())+len(b.segs())+len(c.segs()) <= 24:
 			th := 2 * math.Pi * float64(r.Intn(1<<20)) / float64(1<<20)
-			sc := math.Pow(10, float64(r.Range(-20, 30))/10)
+			sc := math.Pow(10, float64(r.Range(-180, 120))/10)
 			tx := sc * float64(r.Range(-1000, 1000)) * 1.1
 			ty := sc * float64(r.Range(-1000, 1000)) * 0.9
 			co, si := math.Cos(th), math.Sin(th)
-			var tr func(n *lib.Node)
-			tr = func(n *lib.Node) {
-				for k := range n.C {
-					x, y := n.C[k][0], n.C[k][1]
-					n.C[k][0] = sc*(x*co-y*si) + tx
-					n.C[k][1] = sc*(x*si+y*co) + ty
-				}
-				for _, kid := range n.Kids {
-					tr(kid)
-				}
+			f := func(x, y float64) (float64, float64) {
+				return sc*(x*co-y*si) + tx, sc*(x*si+y*co) + ty
 			}
-			tr(na)
-			tr(nb)
-			tr(nc)
+			tr(na, f)
+			tr(nb, f)
+			tr(nc, f)
 			dump, cname = lib.Dump, "f_"+cl.name
+		case sel == 7 || sel == 3:
+			k := -r.Range(10, 60)
+			if r.Chance(1, 4) {
+				k = r.Range(1, 40)
+			}
+			sc := math.Ldexp(1, k)
+			f := func(x, y float64) (float64, float64) { return x * sc, y * sc }
+			tr(na, f)
+			tr(nb, f)
+			tr(nc, f)
+			dump, cname = lib.Dump, "p_"+cl.name
 		}
 		ga := na.Build()
 		gb := nb.Build()
